@@ -40,7 +40,7 @@ def eval_program(arg) -> dict:
         return True
     prog, case, _rng = progrun.make_program(
         PROP, seed, stream, scratch, want_mc, mc_shape=stream // 4, accept=accept,
-        ref_externs=0.8 if need_ref else None)
+        ref_externs=0.8 if need_ref else None, big=stream % 9 == 6)
     if need_two:
         # one semantics by explicit names, the other by 'remaining': the warm-up build spells the
         # same assignment with two explicit sets from shared PortSelect objects
@@ -57,6 +57,8 @@ def eval_program(arg) -> dict:
     elif stream % 3 == 1 and not prog.enc.get('multiclient'):
         prog.enc['provides'] = {'sts': 'ALL', 'mts': 'NONE'}
         prog.enc['requires'] = {'sts': 'REMAINING', 'mts': 'NONE'}
+    if prog.enc.get('big') and not prog.enc.get('multiclient'):
+        prog.enc['provides'] = {'sts': 'NONE', 'mts': 'ALL'}
     case['cfg'] = prog.enc
     out = {'violations': [], 'counts': {}}
     if need_ref:
@@ -98,7 +100,7 @@ def main(tier: str) -> int:
         raise common.Inconclusive('g++ / clang++-14 not available')
     run = common.Run(PROP, tier)
     n = 9 if tier == 'quick' else 400
-    run.require('mts_provides_in', 'mts_requires_out', 'sts_events', 'identity_checks',
+    run.require('programs_of_big_size', 'mts_provides_in', 'mts_requires_out', 'sts_events', 'identity_checks',
                 'gate_tests', 'programs', 'static_asserts_on_accessor_types',
                 'programs_queueing_reference_typed_arguments',
                 'programs_with_several_mts_provides_ports', 'replies_handed_back_compared')
